@@ -9,8 +9,8 @@
 EXTENDS Integers, Sequences, FiniteSets, TLC, Json
 Trace == ndJsonDeserialize("trace.ndjson")
 VARIABLES size, maxwait, taken, tt, ndel, srcState, cancelled, pend, closed, held, srcClosed, l
-\* taken: items handed to the library, tt: their hand-over times, ndel: number delivered in batches
-\* srcState: 0 running, 1 ended, 2 failed.  closed: 0 no, 1 Close called, 2 Close returned
+\* taken: items handed to the library, tt: the times they entered a batch (hand-over, or later - see ret), ndel: number delivered in batches
+\* srcState: 0 running, 1 ended, 2 failed, 3 failed with context.Canceled as its own error.  closed: 0 no, 1 Close called, 2 Close returned
 vars == <<size, maxwait, taken, tt, ndel, srcState, cancelled, pend, closed, held, srcClosed, l>>
 Ev == Trace[l]
 Init == /\ size = 1 /\ maxwait = 0 /\ taken = <<>> /\ tt = <<>> /\ ndel = 0 /\ srcState = 0 /\ cancelled = {}
@@ -42,7 +42,7 @@ Next ==
        [] Ev.ev = "taken" -> taken' = Append(taken, Ev.v) /\ tt' = Append(tt, Ev.t)
                              /\ Un(<<size, maxwait, ndel, srcState, cancelled, pend, closed, held, srcClosed>>)
        [] Ev.ev = "srcend" -> srcState' = 1 /\ Un(<<size, maxwait, taken, tt, ndel, cancelled, pend, closed, held, srcClosed>>)
-       [] Ev.ev = "srcerr" -> srcState' = 2 /\ Un(<<size, maxwait, taken, tt, ndel, cancelled, pend, closed, held, srcClosed>>)
+       [] Ev.ev = "srcerr" -> srcState' = (IF Ev.c = 1 THEN 3 ELSE 2) /\ Un(<<size, maxwait, taken, tt, ndel, cancelled, pend, closed, held, srcClosed>>)
        [] Ev.ev = "srcclose" -> srcClosed' = srcClosed + 1 /\ Un(<<size, maxwait, taken, tt, ndel, srcState, cancelled, pend, closed, held>>)
        [] Ev.ev = "srcviol" -> FALSE        \* the instrumented source saw Next after Close / a second Close / overlapping calls (C09)
        [] Ev.ev = "cancel" -> cancelled' = cancelled \cup {Ev.ctx} /\ Un(<<size, maxwait, taken, tt, ndel, srcState, pend, closed, held, srcClosed>>)
@@ -57,10 +57,16 @@ Next ==
             /\ Ev.id \in Ids /\ pend' = [i \in Ids \ {Ev.id} |-> pend[i]]
             /\ IF Ev.op = "Next"
                THEN /\ RetNext(Ev.res, Ev.t)
-                    /\ (Ev.res.k = "err" /\ Ev.res.e = "ctx" /\ closed = 0) => pend[Ev.id].ctx \in cancelled
+                    \* a context error: the call's own context, or the source's own error is context.Canceled (after the items before it)
+                    /\ (Ev.res.k = "err" /\ Ev.res.e = "ctx" /\ closed = 0) => (pend[Ev.id].ctx \in cancelled \/ (srcState = 3 /\ Undelivered = 0))
                     /\ Un(closed)
                ELSE /\ closed' = 2 /\ srcClosed = 1 /\ Un(ndel)       \* Close returned: the source has been closed exactly once
-            /\ Un(<<size, maxwait, taken, tt, srcState, cancelled, held, srcClosed>>)
+            \* "has been in the batch": an item that was taken from the source while the previous batch was still waiting for a
+            \* consumer (the producer is one item ahead) enters the next batch when that batch is handed out, not before
+            /\ tt' = IF Ev.op = "Next" /\ Ev.res.k = "batch"
+                      THEN [i \in DOMAIN tt |-> IF i > ndel + Len(Ev.res.items) /\ tt[i] < Ev.t THEN Ev.t ELSE tt[i]]
+                      ELSE tt
+            /\ Un(<<size, maxwait, taken, srcState, cancelled, held, srcClosed>>)
        [] Ev.ev = "q" ->          \* nothing can move: a pending call must be one the property lets wait
             /\ \A i \in Ids :
                  IF pend[i].op = "Close" THEN held                       \* Close always returns - once a held full() callback does
